@@ -105,7 +105,7 @@ func instrument(work, cfg, mode string) (map[string]string, error) {
 		return os.Open(p.Export)
 	})
 	arch := "amd64"
-	if cfg == "386" {
+	if strings.HasPrefix(cfg, "386") {
 		arch = "386"
 	}
 	siteBase := 0
